@@ -1,6 +1,6 @@
 """Workload profiles: one per claimed property. A profile names the history
 generator, the oracles to evaluate, and how coverage is reported."""
-from . import gen_hist, gen_c13, gen_c20
+from . import gen_hist, gen_c13, gen_c20, gen_sweep
 
 
 def _fault_table(counters):
@@ -41,7 +41,11 @@ def c08_coverage(res, n_runs, t_batch, workers):
                    'host states (per config: carries-text, calls so far, raised-before, holder, type; per cache: '
                    'filled, #option sets that hit it; census dirty) and (state, op, fault, state) steps.')
     cov['containers_tracked_by_census'] = res.extra.get('containers_tracked', 0)
-    cov['samples'] = [sample_of(o) for o in res.samples[:2]]
+    cov['systematic_sweep'] = ('the first sweep_size(tier) evaluations are the systematic fault sweep (sim/gen_sweep.py: %d call shapes x '
+                               'evenly spaced F5/F4/F3 placements, each followed by probes): quick %d, thorough %d histories; '
+                               'all further evaluations are seeded histories' % (len(gen_sweep.shapes()), gen_sweep.sweep_size('quick'),
+                                                                                 gen_sweep.sweep_size('thorough')))
+    cov['samples'] = [sample_of(o) for o in res.samples[:4]]
     return cov
 
 
@@ -91,7 +95,10 @@ def c20_coverage(res, n_runs, t_batch, workers):
     cov['distinct_nontrivial'] = len(res.distinct_keys)
     cov['cells_reached'] = len(res.distinct_keys)
     cov['cells_nominal'] = 32 * 18 * 3
-    cov['rule'] = ('one evaluation = one seeded history of 3-12 ops: a host keeps a global config and reloads it between calls '
+    cov['grid_histories'] = min(res.runs, gen_c20.GRID_SIZE)
+    cov['rule'] = ('the first %d evaluations are an exhaustive grid (every syntax name of both types incl. unknown ones x key kind x '
+                   'candidate key x every subset of the three caller-controlled layers; the two built-in layers vary with the '
+                   '(syntax, key) pair); every further evaluation = one seeded history of 3-12 ops: a host' % gen_c20.GRID_SIZE + ' keeps a global config and reloads it between calls '
                    '(set_global), edits its user layer (add/remove keys, switch syntax), builds Config(user, global) (resolve) '
                    'and calls expand(abbr, user, global), for all 16 known syntaxes of both types plus unknown names, with '
                    'malformed input (F1) and callee failures (F5) in between. After every op the built-in tables are compared '
@@ -101,7 +108,7 @@ def c20_coverage(res, n_runs, t_batch, workers):
                    'mentions the probed key; distinct by cell = (which of the 5 overriding layers mention the key, syntax '
                    'name, key kind option/snippet/variable); cells_nominal = 2^5 x 18 x 3 includes cells the built-in tables '
                    'make unreachable (e.g. no built-in layer defines variables).')
-    cov['samples'] = [sample_of(o) for o in res.samples[:2]]
+    cov['samples'] = [sample_of(o) for o in res.samples[:4]]
     return cov
 
 
@@ -117,6 +124,8 @@ def c20_warnings(res, tier):
 PROFILES = {
     'C20': {
         'gen': gen_c20.gen_c20,
+        'gen_indexed': gen_c20.gen_c20_indexed,
+        'fixed_runs': lambda tier: gen_c20.GRID_SIZE,
         'props': ['C20'],
         'coverage': c20_coverage,
         'warnings': c20_warnings,
@@ -135,6 +144,8 @@ PROFILES = {
     },
     'C08': {
         'gen': gen_hist.gen_c08,
+        'gen_indexed': gen_hist.gen_c08_indexed,
+        'fixed_runs': gen_sweep.sweep_size,
         'props': ['C08'],
         'coverage': c08_coverage,
         'warnings': c08_warnings,
